@@ -256,6 +256,22 @@ func vDiodeFailingSink(poller bool) {
 func VH_C10_failsink_waiter() { vDiodeFailingSink(false) }
 func VH_C10_failsink_poller() { vDiodeFailingSink(true) }
 
+// Close on a Writer that was never written to returns (the consumer exists from NewWriter on).
+func vDiodeCloseIdle(poller bool) {
+	sink := &vSink{}
+	interval := time.Duration(0)
+	if poller {
+		interval = time.Millisecond
+	}
+	w := NewWriter(sink, 2, interval, nil)
+	zzverif.Assert(w.Close() == nil, "C12: Close returns on a writer that was never written to")
+	zzverif.Assert(len(sink.got) == 0, "C10: nothing is delivered that was not written")
+	zzverif.Reach("diode/close-idle")
+}
+
+func VH_C10_closeidle_waiter() { vDiodeCloseIdle(false) }
+func VH_C10_closeidle_poller() { vDiodeCloseIdle(true) }
+
 func VH_C10_stuck_writer_waiter() { vDiodeStuck(false, 1+zzverif.Choice(2)) }
 func VH_C10_stuck_writer_poller() { vDiodeStuck(true, 1+zzverif.Choice(2)) }
 
